@@ -104,6 +104,14 @@ func (u *Unit) numBinary(op token.Token, a, b Value, typ types.Type) (Value, *Te
 		}
 		var fail *Term
 		var t *Term
+		if xv, _, ok := bvLitVal(x); ok && (op == token.ADD || op == token.SUB) {
+			if yv, _, ok2 := bvLitVal(y); ok2 {
+				if op == token.ADD {
+					return res(BVLit(new(big.Int).Add(xv, yv), w)), nil
+				}
+				return res(BVLit(new(big.Int).Sub(xv, yv), w)), nil
+			}
+		}
 		switch op {
 		case token.ADD:
 			t = mk("bvadd", x.Sort, x, y)
